@@ -7,7 +7,7 @@ ID = 'C08'
 LEVEL = 'exploration'
 RULE = ('Each run = seeded PBM configuration (admissible class counts) + history of up to 18/25 ops from {UpdatePBMEuler, LoadDistribution, LoadDistributionFunction, '
         'addSizeClasses, changeSizeClasses (coarser/finer/shifted/grown/shrunk-to-populated, with or without explicit class count; 12% of runs also extreme 2-6 class re-meshes), '
-        'adjustSizeClassesEuler, setAdaptiveBinSize, createBackup, revert, reset, reset(False), transport step, moment queries on a supplied distribution}. '
+        'adjustSizeClassesEuler, setAdaptiveBinSize, createBackup, revert, reset, reset(False), setPSDtoRecordedTime (recording on: before / on / between / after the recorded times), transport step, moment queries on a supplied distribution}. '
         'Non-trivial = a populated distribution or a transport step occurred; distinct = distinct record digest; signature = set of grid events seen (extend, re-mesh kinds, adjust outcomes, backup/revert, reset).')
 ASSUMPTIONS = ['Admissible PBM configurations per the class docstring: even class counts, minBins <= maxBins/2, minBins <= bins <= maxBins; adjustSizeClassesEuler only with more than minBins/2 classes.',
                'revert is only offered after at least one createBackup (reverting the placeholder of a fresh object is a precondition breach).',
